@@ -4,9 +4,10 @@ import (
 	"errors"
 	"fmt"
 	"io"
-	"sync"
+	"math"
 	"reflect"
 	"strings"
+	"sync"
 
 	"github.com/cockroachdb/redact"
 )
@@ -30,18 +31,18 @@ const (
 	KComplex
 	KString
 	KBytes
-	KNamedStr   // type MyStr string
-	KNamedInt   // type MyInt int
-	KSafeStr    // SafeValue-marked string type
-	KSafeInt    // redact.SafeInt
-	KRegInt     // registrable int type
-	KRegStruct  // registrable struct type
-	KErr        // plain error
-	KStringer   // Stringer struct (value receiver)
-	KPStringer  // Stringer with pointer receiver, non-nil pointer
+	KNamedStr    // type MyStr string
+	KNamedInt    // type MyInt int
+	KSafeStr     // SafeValue-marked string type
+	KSafeInt     // redact.SafeInt
+	KRegInt      // registrable int type
+	KRegStruct   // registrable struct type
+	KErr         // plain error
+	KStringer    // Stringer struct (value receiver)
+	KPStringer   // Stringer with pointer receiver, non-nil pointer
 	KNilStringer // nil pointer whose String method dereferences (panics -> <nil>)
 	KGoStringer
-	KFormatter  // fmt.Formatter writing through fmt.State.Write
+	KFormatter // fmt.Formatter writing through fmt.State.Write
 	KSafeFormatter
 	KSafeMessager
 	KErrFormatter // error that is also a Formatter
@@ -67,14 +68,14 @@ const (
 	KFunc
 	KByteArr // [3]byte
 	KDuration
-	KBuilder // *StringBuilder with content
-	KSafeStringer // SafeValue-marked type with a String method
-	KMapIfaceKey  // map[interface{}]string with a nil key, keys of several kinds
-	KMapStructKey // map with struct keys holding interface fields (one nil)
-	KNilMapStringer // nil value of a named map type whose String method writes to the map (panics)
-	KNilSliceError  // nil value of a named slice type whose Error method indexes it (panics)
+	KBuilder         // *StringBuilder with content
+	KSafeStringer    // SafeValue-marked type with a String method
+	KMapIfaceKey     // map[interface{}]string with a nil key, keys of several kinds
+	KMapStructKey    // map with struct keys holding interface fields (one nil)
+	KNilMapStringer  // nil value of a named map type whose String method writes to the map (panics)
+	KNilSliceError   // nil value of a named slice type whose Error method indexes it (panics)
 	KNilFuncStringer // nil value of a named func type whose String method calls it (panics)
-	KFormatterWS  // fmt.Formatter writing through io.WriteString (the io.StringWriter fast path)
+	KFormatterWS     // fmt.Formatter writing through io.WriteString (the io.StringWriter fast path)
 	kindCount
 )
 
@@ -264,8 +265,18 @@ func (v *Val) build(inst int) interface{} {
 	case KUintptr:
 		return uintptr(unsafeInt(v.ID, inst))
 	case KFloat:
+		// not-a-number and infinities take fmt's special padding path (the '0' flag is suspended)
+		switch v.ID % 11 {
+		case 5:
+			return math.NaN()
+		case 7:
+			return math.Inf(-1)
+		}
 		return float64(unsafeInt(v.ID, inst)) / 8
 	case KComplex:
+		if v.ID%11 == 5 {
+			return complex(math.NaN(), float64(unsafeInt(v.ID, inst)))
+		}
 		return complex(float64(unsafeInt(v.ID, inst)), -1.5)
 	case KString:
 		return unsafeStr(v.ID, inst)
